@@ -298,8 +298,10 @@ class Ctx:
             "coverage": cov, "assumptions": extra_assumptions or [],
             "wall_s": round(time.time() - self.t0, 2), "violations": len(self.violations),
         }
-        d = VERIF / "evidence"
-        d.mkdir(exist_ok=True)
+        # /verif/evidence describes runs against /repo itself; a run against another tree (VERIF_REPO: a seeded worktree during development)
+        # writes its record next to the other scratch output
+        d = VERIF / "evidence" if REPO.resolve() == Path("/repo") else VERIF / "work" / ("evidence." + REPO.resolve().name)
+        d.mkdir(parents=True, exist_ok=True)
         (d / f"{self.prop}.json").write_text(json.dumps(ev, indent=1, default=str, ensure_ascii=False))
 
     def finish(self, level="proof", extra_assumptions=None) -> int:
